@@ -6,12 +6,23 @@
 // account view and hands the merged VotesLogs to CandidatesRanking) - on forks, with SetStableBlock and
 // Close + NewChainDataBase at arbitrary points.  After every step GetCandidatesTop(hash) of EVERY live block and the
 // candidate accounts as read from that block's view are logged.  The adapter never judges.
+//
+// Vote magnitudes.  The vote values 0..maxv of the specification are abstract; the binding sends them through a
+// strictly monotone VOTE MAP to real totals (votemap.go): the catalogue maps of RankingOps.tla (index 1..6: the top value
+// is the first total of the next RLP length class at 2^7, 2^8, 2^16, 2^24, 2^32, 2^64, the other values are just below
+// it) when the specification names one (state variable vm), else a "free" map drawn per behaviour from a pool of totals
+// around every length boundary.  Everything the real code reports is translated back to the model value (-1 and the
+// decimal string in `odd` when the real total is none of the values put in).  reset logs the map and the real length of
+// the persisted candidate record for every value (the real RLP encoder); every event logs the slot layout of the
+// persisted candidate file (coverage accounting only).
 package ranking
 
 import (
 	"bytes"
 	"fmt"
+	"hash/crc32"
 	"math/big"
+	"math/rand"
 	"os"
 	"path/filepath"
 	"sort"
@@ -50,6 +61,11 @@ type sys struct {
 	blocks  map[int]*types.Block // live blocks by id (ids are reused: smallest free one); 0 = the initial stable block
 	ids     map[common.Hash]int
 	nblocks int
+	// vote map of the current behaviour: model value v <-> real total vals[v] (strictly increasing, vals[0] = 0)
+	vm   int
+	vals []*big.Int
+	inv  map[string]int
+	odd  []string // real totals seen in this step that are none of vals
 }
 
 func envInt(name string, dflt int) int {
@@ -104,8 +120,9 @@ func errStr(err error) string {
 }
 
 // reset: a fresh database whose block 0 (no candidates) is stable; the node has NOT restarted since.
-func (s *sys) reset(nc int) engine.Fields {
+func (s *sys) reset(nc int, vm int, vals []*big.Int) engine.Fields {
 	s.closeDB()
+	s.setVoteMap(vm, vals)
 	base := os.Getenv("VERIF_SCRATCH_DIR")
 	if base == "" {
 		base = filepath.Join(os.TempDir(), "ranking")
@@ -154,6 +171,7 @@ func (s *sys) reset(nc int) engine.Fields {
 		engine.Failf("genesis SetStableBlock: %v", err)
 	}
 	fl := engine.Fields{"nc": nc, "k": s.k, "rk": s.rk, "addrs": hexes, "err": ""}
+	s.logVoteMap(fl)
 	s.observe(fl)
 	return fl
 }
@@ -172,6 +190,18 @@ func (s *sys) candOf(a common.Address) int {
 		}
 	}
 	return 0
+}
+
+// votesIdx translates a real total back to the model value of the behaviour's vote map.
+func (s *sys) votesIdx(v *big.Int) int {
+	if v == nil {
+		return 0
+	}
+	if i, ok := s.inv[v.String()]; ok {
+		return i
+	}
+	s.odd = append(s.odd, v.String())
+	return -1
 }
 
 func votesInt(v *big.Int) int {
@@ -219,15 +249,33 @@ func (s *sys) probeAcc(v *store.AccountTrieDB, a common.Address) []int {
 	if acc.Address != a {
 		return []int{-4, 0}
 	}
-	return []int{regCode(acc.Candidate.Profile), votesInt(acc.Candidate.Votes)}
+	return []int{regCode(acc.Candidate.Profile), s.votesIdx(acc.Candidate.Votes)}
 }
 
 func (s *sys) topOf(h common.Hash) [][]int {
 	top := [][]int{}
 	for _, c := range s.db.GetCandidatesTop(h) {
-		top = append(top, []int{s.candOf(c.Address), votesInt(c.Total)})
+		top = append(top, []int{s.candOf(c.Address), s.votesIdx(c.Total)})
 	}
 	return top
+}
+
+// slots: the layout of the persisted candidate file as the running process holds it (store.RunContext): one
+// [candidate, record length] pair per slot in slot order.  Logged for coverage accounting only (checks/c10.py); the
+// trace specification does not look at it.
+func (s *sys) slots() [][]int {
+	cc := s.db.Context.Candidates
+	type slot struct{ pos, cand, n int }
+	var all []slot
+	for a, p := range cc.Candidates {
+		all = append(all, slot{int(p.Pos), s.candOf(a), int(p.Len)})
+	}
+	sort.Slice(all, func(i, j int) bool { return all[i].pos < all[j].pos })
+	out := [][]int{}
+	for _, x := range all {
+		out = append(out, []int{x.cand, x.n})
+	}
+	return out
 }
 
 func (s *sys) observe(fl engine.Fields) {
@@ -259,6 +307,11 @@ func (s *sys) observe(fl engine.Fields) {
 		obs = append(obs, map[string]interface{}{"b": id, "top": s.topOf(h), "acc": acc})
 	}
 	fl["obs"] = obs
+	fl["slots"] = s.slots()
+	if len(s.odd) > 0 {
+		fl["odd"] = s.odd
+		s.odd = nil
+	}
 }
 
 func (s *sys) block(id int) *types.Block {
@@ -304,14 +357,17 @@ func (s *sys) addBlock(p int, nv []int, t int) engine.Fields {
 	ops := []string{}
 	for i, a := range s.addrs {
 		c := i + 1
+		if nv[i] < 0 || nv[i] >= len(s.vals) {
+			engine.Failf("generator asks for vote value %d, the vote map has 0..%d", nv[i], len(s.vals)-1)
+		}
 		acc := am.GetAccount(a)
 		r := regCode(acc.GetCandidate())
-		cur := votesInt(acc.GetVotes())
+		cur := s.votesIdx(acc.GetVotes())
 		switch {
 		case c == t && r == 0:
 			// registers and unregisters inside one block: the merged logs carry no VotesLog at all
 			acc.SetCandidate(profile(c))
-			acc.SetVotes(big.NewInt(1))
+			acc.SetVotes(s.real(1))
 			acc.SetCandidateState(types.CandidateKeyIsCandidate, types.NotCandidateNode)
 			acc.SetVotes(big.NewInt(0))
 			ops = append(ops, fmt.Sprintf("regunreg(%d)", c))
@@ -323,16 +379,16 @@ func (s *sys) addBlock(p int, nv []int, t int) engine.Fields {
 			ops = append(ops, fmt.Sprintf("balance(%d)", c))
 		case r == 0 && nv[i] > 0:
 			acc.SetCandidate(profile(c))
-			acc.SetVotes(big.NewInt(int64(nv[i])))
-			ops = append(ops, fmt.Sprintf("register(%d,%d)", c, nv[i]))
+			acc.SetVotes(s.real(nv[i]))
+			ops = append(ops, fmt.Sprintf("register(%d,%s)", c, s.real(nv[i])))
 		case r == 1 && nv[i] == 0:
 			// candidate_vote_tx.go unRegisterCandidate
 			acc.SetCandidateState(types.CandidateKeyIsCandidate, types.NotCandidateNode)
 			acc.SetVotes(big.NewInt(0))
 			ops = append(ops, fmt.Sprintf("unregister(%d)", c))
 		case r == 1 && nv[i] != cur:
-			acc.SetVotes(big.NewInt(int64(nv[i])))
-			ops = append(ops, fmt.Sprintf("votes(%d,%d)", c, nv[i]))
+			acc.SetVotes(s.real(nv[i]))
+			ops = append(ops, fmt.Sprintf("votes(%d,%s)", c, s.real(nv[i])))
 		case r == 2 && nv[i] != 0:
 			engine.Failf("generator asks for votes %d of unregistered candidate %d", nv[i], c)
 		}
@@ -370,7 +426,10 @@ func (s *sys) restart() engine.Fields {
 }
 
 // ---------------------------------------------------------------- replay adapter
-type adapter struct{ s sys }
+type adapter struct {
+	s   sys
+	rng *rand.Rand
+}
 
 func (a *adapter) Reset(init map[string]tla.Value) (engine.Fields, error) {
 	st, ok := init["st"]
@@ -388,7 +447,22 @@ func (a *adapter) Reset(init map[string]tla.Value) (engine.Fields, error) {
 			a.s.table = "flat"
 		}
 	}
-	return a.s.reset(s0.Len()), nil
+	// the vote map: the catalogue map the specification names, else (FreeMap) one drawn for this behaviour
+	vm := freeMap
+	if v, ok := init["vm"]; ok {
+		vm = v.I()
+	}
+	maxv := envInt("VERIF_RANKING_MAXV", 2)
+	var vals []*big.Int
+	if vm == freeMap {
+		if a.rng == nil {
+			a.rng = rand.New(rand.NewSource(int64(envInt("VERIF_SEED", 1))*7919 + int64(crc32.ChecksumIEEE([]byte(filepath.Base(os.Getenv("VERIF_SCRATCH_DIR")))))))
+		}
+		vals = drawVoteMap(a.rng, maxv)
+	} else {
+		vals = catalogueMap(vm, maxv)
+	}
+	return a.s.reset(s0.Len(), vm, vals), nil
 }
 
 func (a *adapter) Apply(st engine.Step) (engine.Fields, error) {
